@@ -89,7 +89,7 @@ theorem cvalue_discardList (g : Value → Bool) (v : Value) (ks : List Tree) :
   cases v <;> simp [cvalue, attrPairs_discardList]
 
 /-- The filter "normal and `g` of the value". -/
-def filterOf (g : Value → Bool) : NodeFilter := fun t => g t.value
+def valueFilter (g : Value → Bool) : NodeFilter := fun t => g t.value
 def keptBy (g : Value → Bool) (t : Tree) : Bool := t.value.isNormal && g t.value
 
 theorem canonList_discardList_cons (g : Value → Bool) (k : Tree) (ks : List Tree) :
@@ -115,16 +115,16 @@ theorem validFor_node {g : Value → Bool} {v : Value} {ks : List Tree} (h : (Tr
   exact ⟨h.1.1.1, h.1.1.2, by simpa [keptBy, Tree.value] using h.1.2, h.2⟩
 
 theorem proj_kept {g : Value → Bool} {t : Tree} (h : keptBy g t = true) :
-    proj (filterOf g) t = [.mk t (projList (filterOf g) t.kids)] := by
+    proj (valueFilter g) t = [.mk t (projList (valueFilter g) t.kids)] := by
   obtain ⟨v, ks⟩ := t
-  have : keepNode (filterOf g) (.node v ks) = true := by simpa [keepNode, filterOf, keptBy] using h
+  have : keepNode (valueFilter g) (.node v ks) = true := by simpa [keepNode, valueFilter, keptBy] using h
   simp [proj, this, Tree.kids]
 
 theorem proj_dropped {g : Value → Bool} {t : Tree} (hv : t.validFor g = true) (h : ¬ keptBy g t = true) :
-    proj (filterOf g) t = [] := by
+    proj (valueFilter g) t = [] := by
   obtain ⟨v, ks⟩ := t
   obtain ⟨_, _, hl, _⟩ := validFor_node hv
-  have hk : ¬ keepNode (filterOf g) (.node v ks) = true := by simpa [keepNode, filterOf, keptBy] using h
+  have hk : ¬ keepNode (valueFilter g) (.node v ks) = true := by simpa [keepNode, valueFilter, keptBy] using h
   rcases hl with hl | hl
   · exact absurd hl h
   · subst hl; simp [proj, hk, projList]
@@ -132,13 +132,13 @@ theorem proj_dropped {g : Value → Bool} {t : Tree} (hv : t.validFor g = true) 
 /-- What the theorem says about one kept node (against every other kept node). -/
 def RelSpec (g : Value → Bool) (cmp : TextCmp) (k : Tree) : Prop :=
   ∀ j : Tree, k.validFor g = true → j.validFor g = true → keptBy g k = true → keptBy g j = true →
-    forestEqv cmp (proj (filterOf g) k) (proj (filterOf g) j) =
+    forestEqv cmp (proj (valueFilter g) k) (proj (valueFilter g) j) =
       Canon.rel cmp (canon (discard g k)) (canon (discard g j))
 
 theorem forestEqv_projList_rel (g : Value → Bool) (cmp : TextCmp) (as : List Tree) :
     ∀ (bs : List Tree), (∀ k ∈ as, RelSpec g cmp k) →
       (∀ k ∈ as, k.validFor g = true) → (∀ j ∈ bs, j.validFor g = true) →
-      forestEqv cmp (projList (filterOf g) as) (projList (filterOf g) bs) =
+      forestEqv cmp (projList (valueFilter g) as) (projList (valueFilter g) bs) =
         Canon.relList cmp (canon.canonList (discardList g as)) (canon.canonList (discardList g bs)) := by
   induction as with
   | nil =>
@@ -258,7 +258,7 @@ theorem xpath_documents_rel (cmp : TextCmp) (a b : Tree) (va : a.validRootFor xp
   have hl := forestEqv_projList_rel xpathKeep cmp ks js (fun k _ => relSpec xpathKeep cmp k) va.2 vb.2
   have hk : ∀ l : List Tree, keepNode xpathFilter (.node .document l) = false := by
     intro l; simp [keepNode, xpathFilter, Tree.value, Value.isElement, Value.isText]
-  have hf : xpathFilter = filterOf xpathKeep := rfl
+  have hf : xpathFilter = valueFilter xpathKeep := rfl
   simp only [proj, hk, Bool.false_eq_true, ↓reduceIte, discard, canon, Canon.rel, cvalue, CValue.rel, Bool.true_and]
   rw [hf]; exact hl
 
